@@ -49,6 +49,11 @@ fn real_main(args: &[String]) -> i32 {
             return 2;
         }
     }
+    if cmd == "child" && args.get(2).map(|s| s.as_str()) == Some("first-use") {
+        // nothing of the libraries under test may run before the tasks do
+        exec::FIRST_USE.store(true, std::sync::atomic::Ordering::Relaxed);
+        return judges::child_first_use(args.get(3).map(|s| s.as_str()).unwrap_or(""));
+    }
     exec::install_hooks();
     let jobs = arg_val(args, "--jobs").and_then(|s| s.parse().ok()).unwrap_or(16usize);
     match cmd {
@@ -92,6 +97,7 @@ fn real_main(args: &[String]) -> i32 {
         "digest-plan" => runner::digest_plan(args.get(2).map(|s| s.as_str()).unwrap_or("")),
         "child" => match (args.get(2).map(|s| s.as_str()), args.get(3), args.get(4)) {
             (Some("hash-file"), Some(how), Some(path)) => cli::child_hash_file(how, path),
+            (Some("first-use"), Some(path), _) => judges::child_first_use(path),
             _ => 2,
         },
         "replay" => {
